@@ -234,6 +234,8 @@ def parse_statement(line):
 
 def parse_mir(text):
     fns = {}; promoted = {}; allocs = {}
+    global consts, statics
+    consts = {}; statics = {}
     cur = None; curblk = None
     lines = text.split('\n')
     i = 0; n = len(lines)
@@ -268,6 +270,22 @@ def parse_mir(text):
             cur = Fn(m.group(1) + '::promoted[' + m.group(2) + ']', line); cur.locals[0] = m.group(3)
             promoted[cur.name] = cur; curblk = None
             continue
+        if line.startswith('const ') and 'promoted[' not in line:
+            m = re.match(r'const (.*?): (.*?) = (.*);$', line)
+            if m and not m.group(3).endswith('{'):
+                consts[m.group(1)] = ('value', m.group(2), parse_operand(m.group(3)) if m.group(3).startswith(('const ', 'move ', 'copy ')) else ('const', m.group(3)))
+                continue
+            m = re.match(r'const (.*?): (.*) = \{$', line)
+            if m:
+                cur = Fn(m.group(1), line); cur.locals[0] = m.group(2)
+                consts[m.group(1)] = ('body', m.group(2), cur); curblk = None
+                continue
+        if line.startswith('static '):
+            m = re.match(r'static (mut )?(.*?): (.*) = \{$', line)
+            if m:
+                cur = Fn(m.group(2), line); cur.locals[0] = m.group(3)
+                statics[m.group(2)] = (bool(m.group(1)), m.group(3), cur); curblk = None
+                continue
         if line.startswith('alloc'):
             m = re.match(r'alloc(\d+) \(', line)
             if m:
@@ -293,6 +311,10 @@ def parse_mir(text):
         elif st[0] != 'nop':
             curblk.stmts.append(st)
     return fns, promoted, allocs
+
+
+consts = {}
+statics = {}
 
 if __name__ == '__main__':
     import time
